@@ -24,9 +24,9 @@ Docs == {
    fs    |-> TRUE],
   \* the same kind of file as the first with other entries under the same section names (so that anything remembered
   \* about one file and served for another shows)
-  \* species 1 has embedding and density entries but occurs in no pair entry
+  \* species 1 occurs in the density section only (no pair entry, no embedding entry: its embedding function is zero)
   [pair  |-> << [id |-> 21, sp |-> <<3, 2>>], [id |-> 22, sp |-> <<3, 3>>], [id |-> 23, sp |-> <<2, 2>>] >>,
-   embed |-> << [id |-> 25, sp |-> <<3>>], [id |-> 26, sp |-> <<2>>], [id |-> 27, sp |-> <<1>>] >>,
+   embed |-> << [id |-> 25, sp |-> <<3>>], [id |-> 26, sp |-> <<2>>] >>,
    dens  |-> << [id |-> 28, sp |-> <<2>>], [id |-> 29, sp |-> <<1>>], [id |-> 30, sp |-> <<3>>] >>,
    fs    |-> FALSE] }
 
